@@ -4,6 +4,7 @@ import (
 	"bytes"
 	"encoding/json"
 	"fmt"
+	"math"
 	"math/rand/v2"
 	"os"
 	"path/filepath"
@@ -52,6 +53,11 @@ func c19Work(seed uint64, kp *keys.Pair) c19Result {
 		return res
 	}
 	text := string(doc.ToJSON(d.Plain))
+	if seed%5 == 2 && d.Plain.Kind == doc.KMap {
+		// a non-finite float in an untyped position: JSON marshalling of this pipeline fails (known finding K3);
+		// here it only matters that the failure is clean and identical with and without concurrency
+		text = "x_nonfinite: {deep: [.inf, {n: .nan}]}\n" + func() string { t, _ := doc.ToYAML(d.Plain, doc.YAMLOpts{}); return t }()
+	}
 	p, perr := parseText(text)
 	if perr != nil && !warning.Is(perr) {
 		res.Err = "parse: " + perr.Error()
@@ -143,6 +149,8 @@ type c19Shared struct {
 	plugin     *pipeline.Plugin
 	fullSource string
 	validKey   jwk.Key
+	badMap     *ordered.MapSA
+	badPipe    *pipeline.Pipeline
 }
 
 // c19BuildShared builds the fixtures twice from the same seed: the expected
@@ -245,12 +253,23 @@ func c19BuildOne(r *rand.Rand, kp *keys.Pair, observe bool) (*c19Shared, error) 
 		s.fullSource = s.plugin.FullSource()
 	}
 	s.validKey, _ = kp.PrivSet.Key(0)
+	s.badMap = ordered.MapFromItems(ordered.TupleSA{Key: "a", Value: ordered.MapFromItems(ordered.TupleSA{Key: "b", Value: math.Inf(1)})}, ordered.TupleSA{Key: "c", Value: 1})
+	s.badPipe, _ = parseText("steps:\n  - wait: ~\n    x: {y: {z: .inf}}\n")
 	return s, nil
 }
 
 // one observer operation on the shared fixtures; returns "" or a mismatch.
 func (s *c19Shared) observe(op int, r *rand.Rand) (string, string) {
-	switch op % 16 {
+	switch op % 17 {
+	case 16:
+		// a marshal that fails (non-finite float) must fail cleanly and leave nothing shared behind
+		if _, err := json.Marshal(s.badMap); err == nil {
+			return "Map.MarshalJSON(non-finite)", "expected an error"
+		}
+		if _, err := json.Marshal(s.badPipe); err == nil {
+			return "Map.MarshalJSON(non-finite)", "expected an error"
+		}
+		return "Map.MarshalJSON(non-finite)", ""
 	case 0:
 		k := s.mKeys[r.IntN(len(s.mKeys))]
 		if _, ok := s.m.Get(k); !ok || !s.m.Contains(k) {
@@ -441,7 +460,7 @@ func checkC19(c *run.Ctx) {
 					r := rand.New(rand.NewPCG(uint64(c.Seed)+uint64(round), uint64(g)))
 					<-start
 					for k := 0; k < 12; k++ {
-						op := r.IntN(16)
+						op := r.IntN(17)
 						n := atomic.AddInt64(&inflight, 1)
 						for {
 							m := atomic.LoadInt64(&maxInflight)
@@ -486,7 +505,7 @@ func checkC19(c *run.Ctx) {
 		stepState := func() string { return modelToDocRaw(sh.signStep).String() + fmt.Sprint(sh.penv) }
 		allFields := cmp.Exporter(func(reflect.Type) bool { return true })
 		for i := 0; i < c.N(400, 4000); i++ {
-			op := i % 16
+			op := i % 17
 			if i%64 == 0 {
 				if nsh, err := c19BuildShared(uint64(c.Seed)*104729+uint64(i), kp); err == nil {
 					sh = nsh
